@@ -11,7 +11,7 @@ from mc.core.util import exc_name
 
 ID = "C15"
 LEVEL = "exploration"
-REQUIRED_OUTCOMES = ["encode:ok", "decode:known-suffix", "decode:unknown-suffix-rejected", "legacy:loaded",
+REQUIRED_OUTCOMES = ["encode:ok", "decode:known-suffix", "decode:unknown-suffix-rejected", "legacy:loaded", "legacy:loaded-other-spelling",
                      "layered", "respin:absent"]
 
 SHORTS = ["F", "rhel", "my-prod", "x86"]
@@ -285,6 +285,31 @@ def run_unit(unit, acc):
                 if o["triple"] != [date, ctype, respin]:
                     acc.violation("legacy", {"kind": "legacy", "doc": doc, "want": [date, ctype, respin]}, o,
                                   "legacy %s composeinfo with id %r loads as %s, id encodes %s" % (version, cid, o["triple"], [date, ctype, respin]))
+        # the other spellings a legacy id may use: long suffixes, no respin at all
+        spell = {"production": [""], "nightly": [".n", ".nightly"], "test": [".t", ".test"], "ci": [".ci"], "development": [".d"]}
+        for version in ("0.0", "0.2"):
+            for ctype in ids.COMPOSE_TYPES_DOC:
+                for suffix, date, respin in itertools.product(spell.get(ctype, []), DATES[:2], (None, 0, 7)):
+                    cid = "foo-1.0-%s%s%s" % (date, suffix, "" if respin is None else ".%d" % respin)
+                    for tkey in ("same",):      # (the "type" key is required before 0.3, too; a key that CONTRADICTS the id is outside the quantifier)
+                        doc = legacy_doc(version, cid, ctype, False, None, None)
+                        if tkey == "absent":
+                            del doc["payload"]["compose"]["type"]
+                        elif tkey == "other":
+                            doc["payload"]["compose"]["type"] = "production" if ctype != "production" else "nightly"
+                        want = [date, ctype, respin or 0]
+                        o = eval_legacy(doc)
+                        acc.ev()
+                        acc.nontriv(("legacy-spelling", version, cid, tkey))
+                        if o["load"] != "ok":
+                            acc.violation("legacy-rejected", {"kind": "legacy", "doc": doc, "want": want}, o,
+                                          "legacy %s composeinfo with id %r (type key: %s) is rejected: %s" % (version, cid, tkey, o["load"]))
+                        elif o["triple"] != want:
+                            acc.violation("legacy", {"kind": "legacy", "doc": doc, "want": want}, o,
+                                          "legacy %s composeinfo with id %r (type key: %s) loads as %s, id encodes %s"
+                                          % (version, cid, tkey, o["triple"], want))
+                        else:
+                            acc.outcome("legacy:loaded-other-spelling")
         acc.sample({"legacy_doc": legacy_doc("0.2", "foo-1.0-20160622.t.3", "test", False, None, None)}, limit=1)
 
 
